@@ -515,7 +515,9 @@ func (c *hCase) finish() {
 	}
 	vSetField(&c.vp, "format", c.format)
 	vSetField(&c.vp, "raw", hRaw)
-	vSetField(&c.vp, "token", jwt.Token(c.tok))
+	if c.tok != nil {
+		vSetField(&c.vp, "token", jwt.Token(c.tok))
+	}
 }
 
 // drawCredentials: up to max credentials, each with an optional expirationDate. A retraction gets at most one,
@@ -563,8 +565,17 @@ func hNewCase() *hCase {
 	}
 
 	// the presentation
-	vTag("vp.format")
-	c.format = vString(6) // "jwt_vp", "ldp_vp", or anything else of that length
+	// as produced by vc.ParseVerifiablePresentation: format jwt_vp with the parsed token, or another format
+	// ("ldp_vp" or anything else of that length) without token
+	vTag("vp.isJWT")
+	if vBool() {
+		c.format = vc.JWTPresentationProofFormat
+	} else {
+		vTag("vp.format")
+		c.format = vString(6)
+		vAssume(c.format != vc.JWTPresentationProofFormat)
+		c.tok = nil
+	}
 	vTag("vp.hasID")
 	c.hasID = vBool()
 	vTag("vp.type")
@@ -595,7 +606,10 @@ func hCheckVerdict(id string, c *hCase, err error) {
 	}
 	vCover("accepted")
 	// a verifiable JWT presentation ...
-	vAssert(c.format == vc.JWTPresentationProofFormat, id+".jwt_format: accepted a presentation that is not in JWT format")
+	vAssert(c.format == vc.JWTPresentationProofFormat && tok != nil, id+".jwt_format: accepted a presentation that is not in JWT format")
+	if tok == nil {
+		return
+	}
 	vAssert(c.hasID, id+".has_id: accepted a presentation without id")
 	vAssert(hS.verifyCalls > 0 && hS.verifyAccepted, id+".vp_verified: accepted a presentation whose signature verification did not succeed")
 	vAssert(hS.verifyCalls > 0 && hS.verifyVCs, id+".credentials_verified: accepted a presentation without verifying its credentials")
